@@ -91,6 +91,9 @@ def handwritten(tier_quick: bool):
         # kernel returned); progress bars on
         dict(ops=[("all",), ("append", C(4, 2)), ("next",)], init_cfgs=[I, C(1, 2), C(2, 4, 2), C(3, 2), C(4, 4)], K=2,
              needs_hist=(2,), chains=3, J=2, tune_error_chains=(1,), show_progress=True, store_kernel_states=True),
+        # the key of a kernel that asks for the history is excluded from tracking (the history holds tracked keys only)
+        dict(ops=[("all",)], init_cfgs=[I, C(1, 4, 2), C(2, 2), C(4, 4, 2)], K=2, needs_hist=(1,), chains=2, via_builder=True,
+             excluded=("p1",)),
         # every kernel key excluded, only an additional key tracked
         dict(ops=[("all",)], init_cfgs=[I, C(1, 2), C(4, 4, 2)], K=2, needs_hist=(), chains=2, via_builder=True,
              included=("const",), excluded=("p1", "p2")),
